@@ -75,7 +75,10 @@ def write_cfg(path, constants, invariants=(), view=None, constraint=None,
               action_constraint=None, spec="Spec"):
     lines = [f"SPECIFICATION {spec}", "CONSTANTS"]
     for k, v in constants.items():
-        lines.append(f"  {k} = {cfg_value(v)}")
+        if isinstance(v, str) and v.startswith("<-"):
+            lines.append(f"  {k} {v}")
+        else:
+            lines.append(f"  {k} = {cfg_value(v)}")
     if view:
         lines.append(f"VIEW {view}")
     if constraint:
